@@ -143,7 +143,9 @@ func TestWorker(t *testing.T) {
 	outPath := os.Getenv("VERIF_OUT")
 	params := parseParams(os.Getenv("VERIF_PARAMS"))
 	seedBase := uint64(envInt("VERIF_SEED_BASE", 1))
-	params["_seed_base"] = strconv.FormatUint(seedBase, 10)
+	// Enumerated layers index their tables by (seed - origin); the origin stays fixed when the driver splits a
+	// worker's seed range over several processes.
+	params["_seed_base"] = strconv.FormatUint(uint64(envInt("VERIF_SEED_ORIGIN", int64(seedBase))), 10)
 	runs := int(envInt("VERIF_RUNS", 100))
 	budget := time.Duration(envInt("VERIF_BUDGET_S", 3600)) * time.Second
 	startWatchdog(time.Duration(envInt("VERIF_WATCHDOG_S", 120)) * time.Second)
@@ -284,6 +286,15 @@ func TestWorker(t *testing.T) {
 		}
 		if i%64 == 63 {
 			write()
+		}
+		if i%16 == 15 {
+			// Memory guard: stop early (the driver continues the seed range in a fresh process).
+			var ms runtime.MemStats
+			runtime.ReadMemStats(&ms)
+			if ms.Sys > uint64(envInt("VERIF_MAX_SYS_MB", 6000))<<20 {
+				total.Inc("worker_recycled_for_memory", 1)
+				break
+			}
 		}
 	}
 	write()
